@@ -874,12 +874,16 @@ def parse_dispatch(cdef, mod):
 def build():
     base = tres_dir()
     mods = []
+    bad_modules = {}
     for root, dirs, files in os.walk(base):
         dirs.sort()
         for f in sorted(files):
             if f.endswith('.py') and f not in SKIP_FILES:
                 p = os.path.join(root, f)
-                mods.append(Module(p, os.path.relpath(p, base)))
+                try:
+                    mods.append(Module(p, os.path.relpath(p, base)))
+                except (SyntaxError, ValueError, OSError) as e:
+                    bad_modules[os.path.relpath(p, base)] = f'{type(e).__name__}: {e}'
     tres, untranslated, defects, guards, dispatch, hashes = {}, {}, [], [], {}, {}
     for mod in mods:
         hashes[mod.rel] = hashlib.sha256(mod.src).hexdigest()[:16]
@@ -906,6 +910,8 @@ def build():
                 guards += tr.guards
             except Unsupported as e:
                 untranslated[ename] = {'module': mod.rel, 'construct': e.what, 'line': e.lineno}
+            except Exception as e:      # fail closed: a construct the translator trips over is an untranslated TRE, never a crash
+                untranslated[ename] = {'module': mod.rel, 'construct': f'translator error {type(e).__name__}: {e}', 'line': None}
     # dispatch tables: each variant must be translated, fixed length, and as long as its key
     for dname, d in dispatch.items():
         for ln, v in sorted(d['by_length'].items()):
@@ -922,6 +928,8 @@ def build():
         if k not in seen:
             seen.add(k)
             uniq.append(d)
+    for rel, why in bad_modules.items():
+        untranslated['<module ' + rel + '>'] = {'module': rel, 'construct': 'module does not parse: ' + why, 'line': None}
     return {'tres': tres, 'untranslated': untranslated, 'defects': uniq, 'guards': guards, 'dispatch': dispatch, 'source_hashes': hashes,
             'dir': base}
 
